@@ -19,6 +19,24 @@ class DiffConfig:
         """Calculate the diff for path."""
         self.differs[path](a, b, path=path, config=self)
 
+    def get_predicates(self, path):
+        """Return the predicates for path, without storing a default entry.
+
+        The predicate tables are defaultdicts, for which a plain lookup of a
+        missing key inserts it. As diff_dicts treats the presence of a key as
+        a predicate configured for that path, lookups must leave no keys behind.
+        """
+        predicates = self.predicates
+        if path in predicates:
+            return predicates[path]
+        default_values = getattr(predicates, 'default_values', None)
+        if default_values is not None and path in default_values:
+            return default_values[path]
+        default_factory = getattr(predicates, 'default_factory', None)
+        if default_factory is None:
+            return predicates[path]
+        return default_factory()
+
     def is_atomic(self, x, path=None):
         "Return True for values that diff should treat as a single atomic value."
         try:
